@@ -131,6 +131,12 @@ def mk_values(empties=True):
             v['dc'][c, d] = two('c%d.db%d' % (c, d), 'd')
     return v
 
+def show(x):
+    """repr with map items sorted (immutables.Map iteration order depends on the per-process string hash seed)"""
+    if isinstance(x, immutables.Map): return 'Map({%s})' % ', '.join('%r: %s' % (k, show(v)) for k, v in sorted(x.items()))
+    if isinstance(x, tuple): return '(%s)' % ', '.join(show(y) for y in x)
+    return repr(x)
+
 def expected(usp, gsp, rc, dc, sc):
     return (pickle.loads(usp), pickle.loads(gsp), rc, dc, sc)
 
@@ -186,7 +192,7 @@ def _run_history(hist, empties, stats):
             stats['tx'] += 1
             if rec.last is not None and rec.last != ('in_tx', pickle.loads(usp)):
                 return dict(step=n, kind=invalidated or 'tx_root_user_schema',
-                            differs=['root user schema of the transaction'], compiled_with=repr(rec.last), supplied=repr(pickle.loads(usp)))
+                            differs=['root user schema of the transaction'], compiled_with=show(rec.last), supplied=show(pickle.loads(usp)))
             continue
         err = None
         try: LOOP.run_until_complete(p.compile(dbname, usp, gsp, rc, dc, sc, 'q', client_id=cid))
@@ -205,7 +211,7 @@ def _run_history(hist, empties, stats):
                 elif all(nm in ('reflection_cache', 'database_config') and a == immutables.Map() and b
                          for nm, a, b in zip(COMPS, rec.last, exp) if a != b): kind = 'empty_map_update_lost'
                 else: kind = 'state_mismatch'
-                return dict(step=n, kind=kind, differs=which, compiled_with=repr(rec.last), supplied=repr(exp))
+                return dict(step=n, kind=kind, differs=which, compiled_with=show(rec.last), supplied=show(exp))
     return None
 
 def shrink(hist, pred):
